@@ -27,7 +27,7 @@ PROFILE = {
     "oracles": ["c03"],
     "mix": {"quote": 3, "trade": 1.5, "rebal": 3, "mark": 0.3, "value": 0.5, "advance": 0.2},
     "always": ("rebal",),
-    "p_margined": 0.5, "p_observe_every": 0.3, "p_frictionless": 0.35, "p_again": 0.5, "p_weight": 0.8,
+    "p_margined": 0.5, "p_observe_every": 0.3, "p_frictionless": 0.35, "p_again": 0.5, "p_weight": 0.8, "p_sizes": 0.15,
     "motifs": [(0.15, gen_acct.motif_flip)],
 }
 
